@@ -56,6 +56,24 @@ PROPS = {
         oracle='element-wise equality with std::vector/std::string after every operation, size <= constructed_size <= capacity, capacity never shrinks under logical clear, accessor validity and zero growth of space_allocated() for converged workloads under ReusableManager; ASan+UBSan',
         assumptions=['element types int, SwissString, nested SwissVector<int>; positions begin/middle/end; value alphabet of three values; aliasing-argument calls are explored in their own system'],
     ),
+    'C08': dict(
+        title='future / promise / latch: value reaches every waiter and callback exactly once',
+        quick=[mc('mc_future', 'all', 'sc', P=2, E=1, budget=120), mc('mc_future', 'all', 'tso', P=1, D=1, E=1, budget=120)],
+        thorough=[mc('mc_future', 'all', 'sc', P=3, E=1, budget=900), mc('mc_future', 'all', 'tso', P=2, D=2, E=1, budget=900)],
+        oracle='callback counters exactly 1 with the value that was set and never before set_value began; get() returns the value; wait_for true => ready, false => virtual elapsed time >= timeout; every waiter returns (deadlock detector); latch ready exactly at zero; HB race detector on the stored value',
+    ),
+    'C14': dict(
+        title='id allocator / thread ids / deposit box',
+        quick=[mc('mc_ids', 'all', 'sc', P=2, E=1, budget=150)],
+        thorough=[mc('mc_ids', 'all', 'sc', P=3, E=1, budget=900), mc('mc_ids', 'all', 'tso', P=2, D=1, E=0, budget=900)],
+        oracle='harness ownership map (no value held twice), quiescent reuse and for_each = live set, thread ids unique while live and recycled after death, exactly one taker per deposit id, stale ids never match after slot reuse',
+    ),
+    'C16': dict(
+        title='execution queue: items consumed once, one consumer at a time, none stranded',
+        quick=[mc('mc_execq', 'all', 'sc', P=2, E=2, budget=150), mc('mc_execq', '0-5', 'tso', P=1, D=1, E=0, budget=100)],
+        thorough=[mc('mc_execq', 'all', 'sc', P=3, E=2, budget=1200), mc('mc_execq', 'all', 'tso', P=2, D=1, E=2, budget=900)],
+        oracle='every item consumed exactly once and per producer in order; consume function never concurrent (plain flag under the HB race detector); join() returns, and only after everything was consumed; after refused launches (fault choices, E) the next accepted signal drains everything',
+    ),
 }
 
 SEQX_ASSUMPTIONS = [
